@@ -122,7 +122,9 @@ def gen_step(rng, L, ops=OPS, max_len=20000):
                         enc_range(range(-1, -L - 3, -2)), enc_range(range(-L, 0)) if L else enc_range(range(0)),
                         enc_range(range(0, L)), ['tuple', rpos(rng, L, False), rpos(rng, L, False)],
                         # empty ranges whose bounds would select something if they were read as a slice
-                        enc_range(range(0, -1)), enc_range(range(2, -1)), enc_range(range(1, -L)), enc_range(range(L // 2, -2, 2)), enc_range(range(L, 0))])
+                        enc_range(range(0, -1)), enc_range(range(2, -1)), enc_range(range(1, -L)), enc_range(range(L // 2, -2, 2)), enc_range(range(L, 0)),
+                        # descending ranges inside the object, and ones whose first position is just past the end
+                        enc_range(range(L - 1, 0, -1)), enc_range(range(L, 0, -1)), enc_range(range(L, L // 2, -2)), enc_range(range(L - 1, -1, -1))])
         if isinstance(p, list) and p and p[0] == 'tuple':
             p = p[1:]
         p = other_container(rng, p)
@@ -130,7 +132,7 @@ def gen_step(rng, L, ops=OPS, max_len=20000):
     if op == 'invert':
         p = rng.choice([None, rpos(rng, L), [rpos(rng, L, False) for _ in range(3)], [rpos(rng, L) for _ in range(3)],
                         enc_range(range(0, L, 2)), enc_range(range(L - 1, -1, -2)), enc_range(range(0, -1)), enc_range(range(1, -L)), enc_range(range(L, 0)),
-                        enc_range(range(-L - 3, 0, 2)), enc_range(range(0, L + 3))])
+                        enc_range(range(-L - 3, 0, 2)), enc_range(range(0, L + 3)), enc_range(range(L, 0, -1)), enc_range(range(L - 1, 0, -1))])
         return op, [other_container(rng, p)]
     if op in ('ilshift', 'irshift'):
         return op, [rng.choice([0, 1, 2, 7, 8, L - 1, L, L + 1, -1, 1000, 10 ** 6])]
